@@ -806,6 +806,22 @@ def self_aliases_inlined(node):
     return new
 
 
+def single_precision_declarations(tree):
+    """[(name, type text, node)] of the variables, attributes and parameters of a lowered Cython tree that are declared with the C type `float` (32 bit) - in Cython, unlike in
+    Python, `float` is single precision"""
+    out = []
+    for x in ast.walk(tree):
+        if isinstance(x, ast.AnnAssign) and isinstance(x.annotation, ast.Constant) and isinstance(x.annotation.value, str):
+            ty = x.annotation.value.replace('public', '').replace('readonly', '').strip()
+            if ty == 'float' or ty.startswith('float*') or ty.startswith('float[') or ty.startswith('float '):
+                out.append((unparse(x.target), ty, x))
+        if isinstance(x, ast.arg) and isinstance(getattr(x, 'annotation', None), ast.Constant) and isinstance(x.annotation.value, str):
+            ty = x.annotation.value.strip()
+            if ty == 'float' or ty.startswith('float*') or ty.startswith('float['):
+                out.append((x.arg, ty, x))
+    return out
+
+
 def continues_as_nesting(fn):
     """a copy of `fn` in which, inside loop bodies, `if T: [..;] continue` followed by REST is written `if T: [..] else: REST` - and, when the branch holds nothing but the
     continue, `if not T: REST` (a leading `not` of T cancelled) - the same iterations do the same work; a normal form for rules that look for `if <test>: <action>`"""
